@@ -25,7 +25,7 @@ class EngineDied(Exception):
 
 
 class Engine:
-    def __init__(self, wall_limit=60.0):
+    def __init__(self, wall_limit=240.0):
         self.proc = None
         self.wall_limit = wall_limit
         self.requests = 0
